@@ -46,6 +46,9 @@ type RSAClientParams struct {
 func (rp *RSAPublicKey) MarshalJSON() ([]byte, error) {
 	var aux auxRSAPublicKey
 	if rp.PublicKey != nil {
+		if rp.N == nil {
+			return nil, fmt.Errorf("rsa public key has no modulus")
+		}
 		aux.Exponent = json.Number(rp.E.String())
 		aux.Modulus = rp.N.Bytes()
 		aux.Length = len(aux.Modulus) * 8
